@@ -56,7 +56,7 @@ def readme():
         f.write("# Seeded changes\n\n"
                 "Every directory holds `patch.diff` (applies to /repo at the repository root), `demo.py` (fails with the\n"
                 "patch, passes without) and `meta.json` (what it breaks, what it needs to manifest, what was run, which\n"
-                "checks report it and with which signatures). `agent-*`/`agent3-*` were written by independent sub-agents that saw only\n"
+                "checks report it and with which signatures). `agent-*`/`agent3-*`/`agent4-*` were written by independent sub-agents that saw only\n"
                 "the property text; `regression-*` are the reverse patches of the `fix:` commits (the original defects).\n"
                 "All were confirmed by `tools/seed_eval.py`: the repository's suite passes with the patch (164 passed),\n"
                 "the demo exits non-zero with it and zero without it. Regenerate with `tools/seed_matrix.py`.\n\n"
@@ -84,20 +84,21 @@ def design_section(rows):
     out = [head, "",
            f"`seeded/` holds {total} deliberate property-breaking changes, each confirmed by `tools/seed_eval.py` on a scratch",
            "copy of `/repo` (patch applies; the repository's own suite still reports 164 passed; the author's",
-           "demonstration fails with the patch and passes without it). `agent-*` (2 per property) and `agent3-*`",
-           "(3 per property) were written by independent sub-agents that were given only the text of one property and",
+           "demonstration fails with the patch and passes without it). `agent-*` (2 per property), `agent3-*` and `agent4-*`",
+           "(3 per property each) were written by independent sub-agents that were given only the text of one property and",
            "a scratch worktree - nothing from `/verif`; `regression-*` are the reverse patches of the `fix:` commits.",
            f"With the checks as committed, {tc} of {total} are reported (VIOLATION, exit 1) by the quick tier of the check of",
            "the property they were written against; `seeded/README.md` lists, per seed, the change, what it needs to",
            "manifest and the signatures that report it.",
            "",
-           "The seeds arrived in three waves and the checks were strengthened after each; what each miss taught:",
+           "The seeds arrived in four waves and the checks were strengthened after each; what each miss taught:",
            "",
            "| wave | missed at first | what was added |",
            "|---|---|---|",
            "| 1 | C03 sub-tree lookup by string prefix; C06 directory id of another algorithm expanded; C04 index-level push drops missing objects; C05 process-wide memo of verified objects, directory token keyed by basename; C07 mtime truncated to seconds; C09 unloadable directory not reported when the workspace has it | sibling names sharing a string prefix and bogus prefixes (C03); other-algorithm directory ids (C06); `collect`+`push`/`fetch` part (C04); cache losing an object after it was verified, same-named files in sub-directories (C05); tampering 1 µs away from the recorded mtime (C07); lazy targets whose directory object is missing (C09) |",
            "| 2 | C11 stale index not cleared for a different directory; C14 short-read sources / non-termination; C16 check-then-insert on the state db; C19 unreadable ancestor silently replaced by an empty one; C20 same object mutated in place and stored again | index + vanish + second-request histories (C11); short-read sources and a per-case watchdog in the harness (C14); SQL statement boundaries as scheduling points (C16); ancestor faults in the public merge (C19); `restore` op on the SQLite index (C20) |",
            "| 3 | C01/C02 names zipped with hashes in another order (partially warm state, large files), racy upload staging; C02 backslash names, `_create_dirs` prefix skip; C03 stale trie after overwrite; C04 verify + corrupt shared file; C05 sub-second directory token; C06 twin `<digest>`/`<digest>.dir`, read-only test on the wrong store; C07 inode dropped from the token; C09 kind change without hashes, file-less intermediate directories; C10 single-file target; C12 partially stale index with an orphan directory, prefix skip in the local existence query; C14 integer ratio at the 30 % edge; C15 protect-before-compare and state-before-verify under a verifying transfer; C16 pool results paired by submission order; C17 file-less intermediate directories, storage existence index; C18 storage prefix inside a directory entry, registration order; C19/C03 component-wise sort; C20 metadata digest overriding the hash | the corresponding alphabets / scenarios (see the *As built* notes in section 4) |",
+           "| 4 (asked for helper-module changes, cooperating edits that are harmless alone, boundary inputs and multi-step histories) | C01/C02 memoised staging store + reference kept for a known id; `.dir` object not verified by a verifying transfer; C02 `check()` comparing the full id (directory object deleted by the first checkout); C03 state hits re-paired by position; C04 `missing` intersected with the request; C05 same-size same-mtime replacement, token taken at record time instead of scan time; C06 NFC-normalised listing keys, `HashInfo` membership on a legacy store, de-duplication by bare value; C07 two-chunk CRLF text, post-add check skipped for ids that passed the pre-check; C08 inode excluded from `Meta` equality, directory type taken from an empty `HashInfo`; C09 failed directories filtered through a set whose members mutate; C10 memoised link metadata; C11 `obj_name` in `HashInfo` equality; C12 skipped directories indexed; C13 inode serialised + unknown mtime ignored, `lstat` identity for symlinks; C14 cached `hash_value`; C15 directory objects saved inside the per-file-system loop, pre-check only without `check_exists`; C16 module-level read buffer; C17 falsy metadata dropped by `from_dict`, `loaded` flag never persisted; C18 `FileNotFoundError` ignored by the transfer error callback; C19 memoised `load()` + in-place merge | C01 part 2 (workspace renamed / rewritten between a stage-only and a stage+transfer; damaged protected sources under verifying transfers); C02 second round trip from the same store, restaging; C03 partially known hash-state; expanded requests with files missing on both sides (C04), source lacking a listed file (C12); C05 `swapped` mutation and the in-flight part (user edit before each of the call's accesses, for files the checkout leaves alone); C06 twin-algorithm ids ahead of the store's own, legacy-algorithm store, names differing only in normalisation form; C07 legacy two-chunk object, forced verified adds; C08 inode-only variant, empty-`HashInfo` directories; C09 application-installed load-error handler, same outcome demanded; C10 third relink; labelled ids (C11); C13 previous index through its serialised forms, staged symlink; C14 polling `hash_value`; C15 two-file-system and verifying index save; C16 data-read pass; C17 sizes in the directory object, empty file, `persist` op; ENOENT upload failures (C04/C11/C18); harness: per-case process isolation so that library-global memo tables cannot leak between cases, C19 public merges replayed as one session |",
            "",
            "Two of the sub-agents' remarks about the *unchanged* library led to repairs (section 9): the `hash_file` TOCTOU",
            "(found when a wave-2 seed made me inject writes inside library calls) and the dry-run removal of legacy",
